@@ -203,6 +203,32 @@ static int cmd_run(int argc, char** argv)
             fflush(stdout);
             js::Value   plan = conc_genplan(world, prop, seed, i, thorough);
             ConcOutcome out  = conc_run_plan_json(plan, nullptr);
+            if (world == "pairs" && !conc_is_tsan_build() && !out.v.any() && !out.must_exit)
+            {
+                // Systematic part: if code that should run under the container's lock ran without it
+                // (never on a tree that locks consistently), park the first client at each such
+                // execution in turn while the other runs its whole call.
+                uint64_t n = out.st.counters["probe.locked_code_running_unlocked"];
+                for (uint64_t k = 0; k < n && k < 120 && !out.v.any() && !out.must_exit; ++k)
+                {
+                    js::Value p2 = plan;
+                    auto      sc = *p2.get("sched");
+                    auto      su = js::Value::array();
+                    su.push(js::Value::integer((int64_t)k));
+                    sc.set("susp", std::move(su));
+                    sc.set("mode", 0); // decision list: the forced switch at the preemption needs a non-explicit mode
+                    sc.set("list", js::Value::array());
+                    p2.set("sched", std::move(sc));
+                    ConcOutcome o2 = conc_run_plan_json(p2, nullptr);
+                    agg.add(o2.st);
+                    agg.traces.insert(o2.trace_hash);
+                    if (o2.v.any() || o2.must_exit)
+                    {
+                        out  = o2;
+                        plan = p2;
+                    }
+                }
+            }
             agg.add(out.st);
             agg.traces.insert(out.trace_hash);
             if (out.st.nontrivial.count(prop))
